@@ -54,7 +54,7 @@ def _alarm(sig, frm):
 
 
 def task_budget():
-    d = 900 if os.environ.get("PYVC_TIER", "quick") == "quick" else 3600
+    d = 600 if os.environ.get("PYVC_TIER", "quick") == "quick" else 3600
     return int(os.environ.get("PYVC_TASK_TIMEOUT", d))
 
 
@@ -68,16 +68,20 @@ def _run_contract_task(task):
     c = contracts[idx]
     budget = task_budget()
     signal.signal(signal.SIGALRM, _alarm)
-    signal.alarm(budget)
+    # repeating: an exception raised by the handler inside a destructor (z3 terms have Python-level __del__) is swallowed
+    signal.setitimer(signal.ITIMER_REAL, budget, 1.0)
     try:
         return _run_contract_task_inner(task)
     except _TaskTimeout:
+        signal.signal(signal.SIGALRM, signal.SIG_IGN)
+        signal.setitimer(signal.ITIMER_REAL, 0)
         _V = None   # the verifier may be in an inconsistent state
         which = c.name if names is None else f"{c.name} scenarios {names[0]}..{names[-1]}"
         return dict(idx=idx, ok=False, timeout=True, error=f"timeout: {which}: no verdict within {budget}s", tb="",
                     secs=time.time() - t0)
     finally:
-        signal.alarm(0)
+        signal.signal(signal.SIGALRM, signal.SIG_IGN)
+        signal.setitimer(signal.ITIMER_REAL, 0)
 
 
 def _run_contract_task_inner(task):
@@ -127,7 +131,7 @@ def run_property(prop, tier="quick", seed=0, jobs=None, verbose=False):
     mine = [i for i, c in enumerate(contracts) if prop in c.props]
     mylem = [i for i, l in enumerate(lemmas) if prop in l.props]
     jobs = jobs or 16
-    out = {"contracts": {}, "lemmas": {}, "errors": []}
+    out = {"contracts": {}, "lemmas": {}, "errors": [], "timeouts": []}
     solver_time = 0.0
     with cf.ProcessPoolExecutor(max_workers=jobs, initializer=_worker_init, initargs=(mods,)) as ex:
         tasks = []
@@ -150,6 +154,10 @@ def run_property(prop, tier="quick", seed=0, jobs=None, verbose=False):
                 out["lemmas"][i] = r
                 continue
             ci = i[0]
+            if r.get("timeout"):
+                # a task that ran out of time leaves its scenarios undecided; the other tasks of the contract still count
+                out["timeouts"].append(r["error"])
+                continue
             prev = out["contracts"].get(ci)
             if prev is None or not prev.get("ok") or not r.get("ok"):
                 if prev is None or (prev.get("ok") and not r.get("ok")):
@@ -170,7 +178,7 @@ def aggregate(prop, contracts, lemmas, out):
     """obligation name -> dict(status, backends, secs, paths, fail=first failing sub-result)"""
     obs = {}
     meta = {}
-    crashes = []
+    crashes = ["TIMEOUT " + t for t in out.get("timeouts", [])]
     for i, r in sorted(out["contracts"].items()):
         c = contracts[i]
         if not r["ok"]:
